@@ -1,3 +1,58 @@
+import PicoProofs.EncRefine
+import PicoProofs.AnyBytes
+import PicoProofs.WireLemmas
 import PicoProofs.Tie
-import PicoModel.WellTyped
-/- C06: theorems are added as the proof modules land -/
+/-
+C06 — Marshal emits the canonical deterministic protobuf bytes.
+-/
+namespace Pico.Props
+open Pico
+
+/-- Marshal's output IS the canonical encoding — a function of the value alone (maps excluded by
+the property: their entry order is the Go iteration order) -/
+theorem C06_marshal_canonical (S : Schema) (id : Nat) (v : Val) (h : wtMsg S false id v = true) :
+    Gen2.marshal S id v = Spec.specEnc S id v := marshal_eq_spec S id v h
+
+/-- fields in strictly ascending field-number order, at every level -/
+theorem C06_ascending_order (S : Schema) (id : Nat) (slots : List Val)
+    (hw : wtSlots S false (S.msg id).fields slots = true) (hn : ((S.msg id).fields.map (·.num)).Nodup) :
+    ((sortedChunks (Spec.encSlots S (S.msg id).fields slots)).map (·.1)).Pairwise (· < ·) :=
+  specEnc_strictly_sorted S id slots hw hn
+
+/-- captured unrecognized fields last -/
+theorem C06_unrecognized_last (S : Schema) (id : Nat) (slots : List Val) (unrec : Bytes)
+    (hc : (S.msg id).capture = true) :
+    Spec.specEnc S id (.msg slots unrec) = Spec.sortChunks (Spec.encSlots S (S.msg id).fields slots) ++ unrec :=
+  specEnc_unrec_last S id slots unrec hc
+
+/-- minimal-length varints: every tag, value and length prefix is `Wire.varint`, whose length is
+the minimum `SizeVarint` and whose last byte is non-zero -/
+theorem C06_varints_minimal (v : Nat) (h : v < 2 ^ 64) :
+    (Wire.varint v).length = Wire.sizeVarint v ∧ (v ≠ 0 → (Wire.varint v).getLast? ≠ some 0#8) :=
+  ⟨(Wire.sizeVarint_eq v h).symm, Wire.varint_getLast_ne_zero v⟩
+
+/-- … at every payload size: the length-patching trick (2 reserved bytes, shrink or grow) yields
+the minimal prefix for EVERY length, on every buffer -/
+theorem C06_length_prefix_every_size (oracle : Nat → Bytes) (field : Int) (p : Bytes) (ok : Bool)
+    (fn : EncLow.Buf → Res (EncLow.Buf × Bool)) (hfn : EncLow.AppendOnly fn p ok) (hsz : p.length < 2 ^ 64) (b : EncLow.Buf) :
+    EncLow.dataOf (EncLow.anyBytesLow oracle (Enc.appendTag field 2) fn b) = some (b.data ++ Enc.anyBytes field p ok, ok) :=
+  EncLow.anyBytesLow_eq_abstract oracle field p ok fn hfn hsz b
+
+/-- default-valued singular fields omitted — exactly the zero bit pattern / empty bytes, nothing else -/
+theorem C06_defaults_omitted (k : Scalar) (f : Nat) (v : Val) (h : scalarOk k v = true) :
+    Enc.writeSingle false k (f : Int) v.toSVal = [] ↔ Spec.isZeroVal k v.toSVal = true := by
+  rw [writeSingle_eq false k f v h]
+  cases hz : Spec.isZeroVal k v.toSVal
+  · simp only [Bool.not_false, Bool.true_and, Bool.false_eq_true, ↓reduceIte, iff_false]
+    intro hnil
+    have hne := Wire.varint_ne_nil (Wire.encodeTag f k.wire)
+    simp only [Spec.field1, Wire.tag, List.append_eq_nil_iff] at hnil
+    exact hne hnil.1
+  · simp
+
+/-- repeated scalars packed -/
+theorem C06_repeated_packed (k : Scalar) (f : Nat) (vs : List Val) (h : vs.all (scalarOk k) = true) :
+    Enc.writeRepeated false k (f : Int) (vs.map Val.toSVal)
+      = if vs.isEmpty then [] else Spec.packed k f (vs.map Val.toSVal) := writeRepeated_eq k f vs h
+
+end Pico.Props
